@@ -81,7 +81,11 @@ func finish(ev map[string]any) (string, bool) {
 	need("callback_forms", needCallbacks...)
 	need("stack_depth_starlark_frames", needDepths...)
 	for _, dim := range []string{"dline", "dcol"} {
+		// the entry a judged frame resolved to
 		need("lnt_"+dim+"_of_judged_frames",
+			"positive/unsaturated", "positive/saturated-once", "positive/saturated>=3", "negative/unsaturated")
+		// entries whose deltas were accumulated on the way to it (blocks laid out of source order come last in a table)
+		need("lnt_"+dim+"_accumulated_up_to_judged_frames",
 			"positive/unsaturated", "positive/saturated-once", "positive/saturated>=3",
 			"negative/unsaturated", "negative/saturated-once", "negative/saturated>=3")
 	}
@@ -726,22 +730,44 @@ func (j *judge) evidence(ee *starlark.EvalError, data, libData []byte) {
 		}
 		o := ee.CallStack[i].Pos
 		matched := false
+		pathLine, pathCol, pathPC := map[string]bool{}, map[string]bool{}, map[string]bool{}
 		for k := range t.entries {
 			e := &t.entries[k]
 			if !matched {
+				// the decoder accumulates deltas: every entry up to the one looked up contributes to the reported position
 				boundary(c, e)
+				pathLine[signClass(e.dline)+"/"+satClass(e.sline)] = true
+				pathCol[signClass(e.dcol)+"/"+satClass(e.scol)] = true
+				pathPC[satClass(e.spc)] = true
 			}
 			if e.line == o.Line && e.col == o.Col {
+				if !matched {
+					for k := range pathLine {
+						c.Cover("lnt_dline_accumulated_up_to_judged_frames", k)
+					}
+					for k := range pathCol {
+						c.Cover("lnt_dcol_accumulated_up_to_judged_frames", k)
+					}
+					for k := range pathPC {
+						c.Cover("lnt_dpc_accumulated_up_to_judged_frames", k)
+					}
+				}
 				matched = true
 				c.Count("lnt_entries_matched_to_judged_frames", 1)
 				c.Cover("lnt_dline_of_judged_frames", signClass(e.dline)+"/"+satClass(e.sline))
+				c.Cover("lnt_dcol_of_judged_frames", signClass(e.dcol)+"/"+satClass(e.scol))
+				c.Cover("lnt_dpc_of_judged_frames", satClass(e.spc))
 				if os.Getenv("C16_DEBUG") != "" {
 					c.Count("dbg dline "+signClass(e.dline)+"/"+satClass(e.sline), 1)
 					c.Count("dbg dcol "+signClass(e.dcol)+"/"+satClass(e.scol), 1)
 					c.Count("dbg dpc "+satClass(e.spc), 1)
+					for k := range pathLine {
+						c.Count("dbg path dline "+k, 1)
+					}
+					for k := range pathCol {
+						c.Count("dbg path dcol "+k, 1)
+					}
 				}
-				c.Cover("lnt_dcol_of_judged_frames", signClass(e.dcol)+"/"+satClass(e.scol))
-				c.Cover("lnt_dpc_of_judged_frames", satClass(e.spc))
 				if e.rows >= 100 {
 					c.Cover("lnt_rows_per_entry_of_judged_frames", ">=100")
 				} else if e.rows >= 10 {
